@@ -15,6 +15,7 @@ ASSUMPTIONS = [
     "the 21 import scripts are re-run with the repository's interpreter in a git-initialised scratch copy of the working tree's src/, data/ and scripts/ (outside /repo and /verif, removed afterwards); every processed table and the combined table are deleted from the copy first, so a script that writes nothing is noticed",
     "the 20 table scripts are independent of each other (each reads only raw data) and are run concurrently; import_food_data.py, which merges their outputs, runs last as in scripts/run_all_imports.sh",
     "comparison is byte for byte; a difference is then localised cell by cell",
+    "the import scripts are run in the order and with the arguments of scripts/run_all_imports.sh (the documented entry point), twice in the same scratch tree",
     "averaging helper: inputs are handed in as list, tuple or float64 ndarray, each container twice: the result must not change and the container must be left as it was",
     "averaging helper: a percentage is valid iff -100 <= p <= 1e5 (docstring); expected result = sum(w_i p_i over valid)/sum(w_i over valid), sentinel 9.37e36 iff no valid value carries weight",
 ]
@@ -43,6 +44,19 @@ def listed_scripts():
         line = line.strip()
         if line.startswith("python "):
             out.append(line.split()[1])
+    return out
+
+
+def listed_invocations():
+    """{script: [arguments]} exactly as scripts/run_all_imports.sh invokes them."""
+    out = {}
+    for line in open(os.path.join(env.REPO, "scripts", "run_all_imports.sh")):
+        line = line.split("#")[0].strip()
+        if line.startswith("python "):
+            import shlex
+
+            parts = shlex.split(line)
+            out[parts[1]] = parts[2:]
     return out
 
 
@@ -87,8 +101,11 @@ def pipeline(case):
         envv["PYTHONHASHSEED"] = "0"
         cwd = os.path.join(scratch, "src", "import_scripts_no_food_trade")
 
+        invoc = listed_invocations()
+        obs["scripts_invoked_with_arguments"] = sum(1 for a in invoc.values() if a)
+
         def run(script):
-            p = subprocess.run([env.PYTHON, script], cwd=cwd, env=envv, capture_output=True, text=True, timeout=900)
+            p = subprocess.run([env.PYTHON, script] + invoc.get(script, []), cwd=cwd, env=envv, capture_output=True, text=True, timeout=900)
             return script, p.returncode, (p.stderr or "")[-400:]
 
         # the pipeline is run twice in the same tree: from the raw data alone (outputs deleted above), and once more on top of
